@@ -93,6 +93,7 @@ type Exec struct {
 	mergingSnap    bool
 	skippedEnsures map[string]bool
 	escaped        map[*ssa.Alloc]bool
+	escapedObjs    []*ssa.Alloc // heap-allocated struct locals whose address was boxed into an interface
 	freshBytes     map[string]bool
 	detExt         map[string]bool
 	preludeText    string
@@ -120,6 +121,7 @@ func (x *Exec) initMaps() {
 		x.dirty = map[string]bool{}
 	}
 	x.escaped = map[*ssa.Alloc]bool{}
+	x.escapedObjs = nil
 	x.freshBytes = map[string]bool{}
 	x.detExt = map[string]bool{}
 	x.labels = map[string]*State{}
